@@ -15,7 +15,7 @@ CHUNK = 8
 RULE = ('place of the process start (32 places: run/$/% in setup, before-assert, assert, cleanup; -stdout-from in file / stdin = / env / equals; run text transformer, '
         'run text matcher, run file matcher; the action to check under the command-line, shell, file-interpreter and source-interpreter forms) x duration of the '
         'child relative to the timeout in force {T-1, T, T+1, never ends, never ends and ignores SIGTERM, never ends and a second never-ending process in [cleanup]} x timeout history {default only, set before (T=1, 5), set after, none before, T then none, '
-        'none then T, set in an earlier phase, T then T2; for the 5 places whose process starts later than the instruction naming it: set between the two (4 histories)}; lifecycle states (running, timed-out, cleanup, ended) x place are the graph; plus a real-process slice '
+        'none then T, set in an earlier phase, T then T2; for the 5 places whose process starts later than the instruction naming it: set between the two (4 histories)}; lifecycle states (running, timed-out, cleanup, ended) x place are the graph; plus 7 places under --act; plus a real-process slice '
         '(8 places x {plain sleeper, SIGTERM-ignoring sleeper}); non-trivial = the child outlives the timeout or there is no timeout')
 ASSUMPTIONS = [
     'virtual clock: a child of duration d started with timeout t raises TimeoutExpired iff d > t, exactly as subprocess.call does',
@@ -102,6 +102,9 @@ def cases(tier):
         for p in real_places:
             for variant in ('sleep', 'ignore-term'):
                 yield ('real', p, variant)
+    for place in ACT_MODE_PLACES:
+        for d in ('inf', 'inf-ignore-term'):
+            yield ('act-mode', place, d)
     for place in PLACES:
         for h in HISTORIES:
             if 'post' in h and place not in DEFERRED:
@@ -110,6 +113,45 @@ def cases(tier):
                 if d == 'inf-and-cleanup-inf' and place.startswith('cleanup-'):
                     continue  # (the slow cleanup probe would come first and the place would never be reached)
                 yield ('virt', place, h, d)
+
+
+ACT_MODE_PLACES = ('setup-run', 'setup-stdin-stdout-from', 'act-command-line', 'act-shell', 'cleanup-run', 'cleanup-shell', 'cleanup-file-stdout-from')
+
+
+def run_act_mode(case) -> Result:
+    """The same with --act (only [setup], the action and [cleanup] run; the identifier goes to stderr): a process that exceeds the timeout is
+    reported as HARD_ERROR / 128 - also when it is in [cleanup], after the action has completed."""
+    _, place, dur = case
+    res = Result()
+    res.n = 1
+    res.nontrivial += 1
+    w = world.get()
+    w.reset()
+    seam = procseam.SEAM
+    seam.reset()
+    text, place_phase, in_force, reported, files = build(place, 'set-1-before', 'slow')
+    seam.script['slow'] = {'dur': INF, 'out': 'slow output\n', 'ignore_term': dur == 'inf-ignore-term'}
+    seam.script['atc'] = {'out': 'act out\n'}
+    o = cli.run_case(text, args=['--act'], real_files=True)
+    errs = []
+    if o.hang or o.exc:
+        errs.append('exception / hang: %s' % o.exc)
+    first_err = (o.err.split('\n') or [''])[0]
+    if o.rc != 128 or 'HARD_ERROR' not in o.err.split('\n'):
+        errs.append('--act: the process at %s exceeds the timeout: expected exit 128 and the identifier HARD_ERROR on stderr; got rc=%s, stderr starts %r, stdout %r' % (
+            place, o.rc, o.err[:120], o.out[:60]))
+    names = [c['name'] for c in seam.calls]
+    if place_phase != 'cleanup' and 'cleanup-probe' not in names:
+        errs.append('--act: [cleanup] was not run after the timeout (processes: %s)' % names)
+    if w.sandboxes():
+        errs.append('--act: sandbox not removed: %s' % w.sandboxes())
+    res.outcomes[('act-mode', o.rc)] += 1
+    res.states.add((place, 'act-mode-timed-out'))
+    if errs:
+        res.violation(case, errs, {'file': text, 'stderr': o.err[:400]})
+    else:
+        res.validated += 1
+    return res
 
 
 def build(place, hist, prog):
@@ -151,6 +193,8 @@ def build(place, hist, prog):
 def run(case) -> Result:
     if case[0] == 'real':
         return run_real(case)
+    if case[0] == 'act-mode':
+        return run_act_mode(case)
     _, place, hist, dur = case
     res = Result()
     res.n = 1
